@@ -186,6 +186,13 @@ def _leaf(v):
         return "nd:%s%s:%s" % (v.dtype, v.shape, sha(v.tobytes())[:12])
     if isinstance(v, (np.generic, np.dtype)):
         return repr(v)
+    if hasattr(v, "tell") and hasattr(v, "read"):      # an open file kept in shared state: its position is state
+        try:
+            return "file@%d" % v.tell()
+        except Exception:           # noqa
+            return "file:closed"
+    if isinstance(v, bytearray):
+        return "ba%d:%s" % (len(v), sha(bytes(v))[:12])
     mod = type(v).__module__ or ""
     if mod.startswith("pandas"):
         import pandas as pd
@@ -198,11 +205,57 @@ def _leaf(v):
     return "t:" + type(v).__name__
 
 
+def state_modules():
+    """the imported modules of the package whose globals can hold state (thrift tables and tests excluded)"""
+    out = []
+    for name, mod in sorted(sys.modules.items()):
+        if mod is None or not (name == "fastparquet" or name.startswith("fastparquet.")):
+            continue
+        if ".parquet_thrift" in name or ".test" in name:
+            continue
+        out.append((name[len("fastparquet"):].lstrip(".") or "__init__", mod))
+    return out
+
+
+def state_classes():
+    from fastparquet import api, schema
+    return [("ParquetFile", api.ParquetFile), ("SchemaHelper", schema.SchemaHelper)]
+
+
+_SCALARS = (bool, int, float, str, bytes, type(None))
+
+
+_MR_CACHE = [None, None]
+
+
 def module_roots():
-    """module-level memo tables of the package (regex cache, json codec cache); functools.lru_cache
-    contents cannot be inspected (trusted: documented thread-safe, value a function of the key)."""
-    from fastparquet import util, json as fpjson
-    return {"seps": util.seps, "json_codec": fpjson._codec_cache.__dict__}
+    """cached by the identity of every global of every package module"""
+    key = hash(tuple(tuple(map(id, vars(m).values())) for _, m in state_modules()) +
+               tuple(tuple(map(id, vars(c).values())) for _, c in state_classes()))
+    if _MR_CACHE[0] != key:
+        _MR_CACHE[0] = key
+        _MR_CACHE[1] = _module_roots()
+    return _MR_CACHE[1]
+
+
+def _module_roots():
+    """{path: object} of the module-level and class-level state of the package: every global (class attribute)
+    that is a container or a scalar.  functools.lru_cache contents cannot be inspected (trusted: documented
+    thread-safe, value a function of the key)."""
+    out = {}
+    for name, mod in state_modules():
+        for k, v in list(vars(mod).items()):
+            if k.startswith("__"):
+                continue
+            if isinstance(v, (dict, list, set, frozenset, bytearray, tuple)) or isinstance(v, _SCALARS) or type(v).__name__ in ("CodecCache", "ndarray"):
+                out["%s/%s" % (name, k)] = v
+    for name, cls in state_classes():
+        for k, v in list(vars(cls).items()):
+            if k.startswith("__"):
+                continue
+            if isinstance(v, (dict, list, set, frozenset, bytearray, tuple)) or isinstance(v, _SCALARS):
+                out["class:%s/%s" % (name, k)] = v
+    return out
 
 
 def fingerprint(root, scratch_values=None):
@@ -226,32 +279,29 @@ def fingerprint(root, scratch_values=None):
                 _walk("/" + k, root.__dict__[k], out, seen, scratch_values)
     else:
         _walk("", root, out, seen, scratch_values)
-    for k, v in module_roots_cached().items():
+    for k, v in module_roots().items():
         _walk("/@module/" + k, v, out, seen, scratch_values)
     return out
 
 
-_MR = []
-
-
-def module_roots_cached():
-    if not _MR:
-        _MR.append(module_roots())
-    return _MR[0]
-
-
 def containers(root):
-    """every dict / list / tuple reachable from root by the fingerprint's traversal rules (+ module memo tables)"""
+    """every dict / list / tuple / set reachable from root by the fingerprint's traversal rules, plus the
+    module-level state: the globals dict of every package module and the class dicts of ParquetFile /
+    SchemaHelper are watched as containers (any rebinding or new global moves the signature)"""
     out = []
     seen = set()
-    mr = module_roots_cached()
-    stack = [root, mr["seps"], mr["json_codec"]]
+    stack = [root]
+    for _, mod in state_modules():
+        out.append(vars(mod))
+    for _, cls in state_classes():
+        out.append(dict(vars(cls)))             # mappingproxy: a copy is enough for keys + value ids
+    stack.extend(module_roots().values())
     while stack:
         v = stack.pop()
         tn = type(v).__name__
         if tn == "ThriftObject":
             v = v.contents
-        elif tn in ("ParquetFile", "SchemaHelper"):
+        elif tn in ("ParquetFile", "SchemaHelper", "CodecCache"):
             v = v.__dict__
         if isinstance(v, dict):
             if id(v) in seen:
@@ -259,7 +309,7 @@ def containers(root):
             seen.add(id(v))
             out.append(v)
             stack.extend(v.values())
-        elif isinstance(v, (list, tuple)):
+        elif isinstance(v, (list, tuple, set, frozenset)):
             if id(v) in seen:
                 continue
             seen.add(id(v))
@@ -292,9 +342,11 @@ def _walk(path0, v0, out, seen, scratch_values):
         tn = type(v).__name__
         if tn == "ThriftObject":
             v = v.contents
-        elif tn in ("ParquetFile", "SchemaHelper"):
+        elif tn in ("ParquetFile", "SchemaHelper", "CodecCache"):
             v = v.__dict__
-        if isinstance(v, dict):
+        if isinstance(v, (set, frozenset)):
+            out[path] = "set%d:%s" % (len(v), sha(repr(sorted(repr(x) for x in v)))[:12])
+        elif isinstance(v, dict):
             if seen.setdefault(id(v), path) != path:
                 out[path + "/@"] = seen[id(v)]
                 continue
@@ -534,7 +586,7 @@ class Sched:
             self.sems[nxt].release()
 
 
-def forced_run(pf, ops, plan, shared=None, timeout=60.0, root=None, opcodes=False):
+def forced_run(pf, ops, plan, shared=None, timeout=30.0, root=None, opcodes=False):
     """Run ops[i] in thread i on the shared handle under the deterministic scheduler.
     Returns (raw results, steps per thread, deadlocked?)."""
     prefix = pkg_prefix()
@@ -797,7 +849,7 @@ def tree_forced(tree, name, k):
     return res[1]
 
 
-def storm_run(pf, op_a, op_b, shared=None, every=1, phase=0, timeout=60.0, max_calls=100000, opcodes=False):
+def storm_run(pf, op_a, op_b, shared=None, every=1, phase=0, timeout=40.0, max_calls=100000, opcodes=False):
     """Two real threads: thread 1 runs op_b and is preempted at every `every`-th line event of
     fastparquet code; at each preemption thread 0 runs op_a once, to completion (a thread issuing the
     same operation again and again).  Deterministic.  Returns (distinct raw results of op_a as a list,
